@@ -504,6 +504,50 @@ pub fn families() -> Vec<Box<dyn Family>> {
             },
         ),
         family(
+            "many_edits",
+            "line texts with MANY SEPARATE CHANGES: 6000..7500 hunks (thorough up to 30000) between otherwise distinct lines - more than 10000 raw edit calls; every 7th hunk is one the clean-up has to reshape (`q s t` -> `s i s t`) x {Myers, Patience}; and Lcs on a pure block deletion / insertion of 10100..13000 lines next to such a hunk (one raw call per line) x {lines, diff_slices}",
+            false,
+            1,
+            |cfg| if cfg.tiny { 1 } else { cfg.tier.pick(3, 24) },
+            |idx, cfg, out| {
+                let mut rng = Rng::for_case(cfg.seed, "c14.many_edits", idx);
+                let render = |v: &[u32]| -> Vec<u8> {
+                    let mut t = Vec::with_capacity(v.len() * 10);
+                    for x in v {
+                        t.extend_from_slice(format!("l{}\n", x).as_bytes());
+                    }
+                    t
+                };
+                if idx % 3 == 2 && !cfg.tiny {
+                    let block = rng.range(10_100, 13_000);
+                    let head = rng.below(50);
+                    let mut a: Vec<u32> = (0..head as u32).map(|i| 1_000_000 + i).collect();
+                    let mut b = a.clone();
+                    a.extend((0..block as u32).map(|i| 10_000_000 + i));
+                    a.extend_from_slice(&[5, 50, 6, 7]);
+                    b.extend_from_slice(&[5, 6, 60, 6, 7]);
+                    a.extend((0..30u32).map(|i| 2_000_000 + i));
+                    b.extend((0..30u32).map(|i| 2_000_000 + i));
+                    let (a, b) = if rng.chance(1, 2) { (a, b) } else { (b, a) };
+                    out.sample(|| format!("Lcs: block of {} lines on one side only", block));
+                    out.count("many_edits_lcs_block_cases");
+                    let (ta, tb) = (render(&a), render(&b));
+                    out.nontrivial(&(&ta, &tb));
+                    text_case(&ta, &tb, &[0, 5], &[Algorithm::Lcs], out);
+                    return;
+                }
+                let hunks = if cfg.tiny { 8 } else { rng.range(6000, cfg.tier.pick(7500, 30_000)) };
+                let (a, b, _) = gen::many_hunks_pair(hunks);
+                let (a, b) = if rng.chance(1, 2) { (a, b) } else { (b, a) };
+                let alg = if idx % 2 == 0 { Algorithm::Myers } else { Algorithm::Patience };
+                out.sample(|| format!("{} hunks, {} / {} lines", hunks, a.len(), b.len()));
+                out.count("many_edits_cases");
+                let (ta, tb) = (render(&a), render(&b));
+                out.nontrivial(&(&ta, &tb));
+                text_case(&ta, &tb, &[0, 5], &[alg], out);
+            },
+        ),
+        family(
             "distinct_boundary",
             "texts of n DISTINCT lines with n just below 256 / 1000 / 1024 / 2048 / 4096 / 8192 / 32768 / 65536 where the new text swaps a block for up to 900 fresh lines, so that the number of distinct tokens on both sides together crosses the boundary while each side stays below it x lines tokenizer x {Myers, Patience} x {str,[u8]}",
             true,
